@@ -11,7 +11,7 @@ pub fn meta() -> Meta {
     Meta {
         id: "C17",
         level: "exploration",
-        rule: "planted-SNP families through `ska build` + `ska lo` (CLI, one thread, hash seeds owned by the shim: 2 quick / 3 thorough): ancestors of length 10k+1 whose (k-1)-mers are unique on both strands; k in {7,9,15,21,31,33} (thorough: every odd k in 7..33); sites = every non-empty subset of the grid {3k, 5k, 7k+1} (spacing exactly 2k and 2k+1, margins 3k); allele assignments = every biallelic split for n=3,4,5 samples, every triallelic assignment for n=3 (thorough: n=4) and carrier patterns for n=6,8,10; sample orientations; without reference and (k>=15) with the ancestor as reference; -m in {0, 0.1, 0.2}. Oracle without reference: the column multiset modulo whole-column complement equals the planted one. With reference (soundness): every VCF record lies at a planted site, REF is the ancestor base, every given genotype decodes to that sample's true base, pseudo-genomes have the ancestor's length and agree with each sample at every called position. Well-formedness family outside the premise (SNP pairs at every distance 1..2k, SNP next to an indel, three alleles at adjacent sites, a sample lacking a region): equal sequence lengths, >= 2 distinct A/C/G/T per column, missing fraction <= m. Cases whose derived samples break (k-1)-mer uniqueness are trivial and not judged for completeness.".into(),
+        rule: "planted-SNP families through `ska build` + `ska lo` (CLI, one thread, hash seeds owned by the shim: 2 quick / 3 thorough): ancestors of length 10k+1 whose (k-1)-mers are unique on both strands; k in {7,9,15,21,31,33} (thorough: every odd k in 7..33); sites = every non-empty subset of the grid {3k, 5k, 7k+1} (spacing exactly 2k and 2k+1, margins 3k); allele assignments = every biallelic split for n=3,4,5 samples, every triallelic assignment for n=3 (thorough: n=4) and carrier patterns for n=6,10 (thorough: 8); sample orientations; without reference and (k>=15) with the ancestor as reference; -m in {0, 0.1, 0.2}. Oracle without reference: the column multiset modulo whole-column complement equals the planted one. With reference (soundness): every VCF record lies at a planted site, REF is the ancestor base, every given genotype decodes to that sample's true base, pseudo-genomes have the ancestor's length and agree with each sample at every called position. Well-formedness family outside the premise (SNP pairs at every distance 1..2k, SNP next to an indel, three alleles at adjacent sites, a sample lacking a region): equal sequence lengths, >= 2 distinct A/C/G/T per column, missing fraction <= m. Cases whose derived samples break (k-1)-mer uniqueness are trivial and not judged for completeness.".into(),
         assumptions: vec!["hash-seed space is a declared finite set (2/3 seeds); thread counts are C11's".into(), "release-profile arithmetic (DESIGN §2)".into()],
         exhaustive_when_uncapped: true,
     }
@@ -177,9 +177,10 @@ pub fn run(ctx: &Ctx, rep: &mut Report) {
         let grid = [3 * k, 5 * k, 7 * k + 1];
         for ss in crate::enumerate::subsets(3, 1, 3) {
             let sites: Vec<usize> = ss.iter().map(|i| grid[*i]).collect();
-            let mut plans: Vec<(usize, bool)> = vec![(3, false), (4, false), (5, false), (3, true), (6, false), (8, false), (10, false)];
+            let mut plans: Vec<(usize, bool)> = vec![(3, false), (4, false), (5, false), (3, true), (6, false), (10, false)];
             if thorough {
                 plans.push((4, true));
+                plans.push((8, false));
             }
             for (n, tri) in plans {
                 let asg = assignments(n, tri);
